@@ -14,6 +14,22 @@ CLAIMED = {
          "Generated-fault exploration: a valid response plus one fault (cut / I/O error then resume, keep failing or EOF / corrupted framing byte), read with a generated plan and 0..6 further reads after the first error; asserts prefix-of-payload at every step, no clean EOF on an incomplete or corrupt frame, helpers return Err, no panic.",
          "Trusts the scripted transport and the harness's builder; faults are injected at the transport, below BufReader.",
          "DESIGN.md §4 C02"),
+ "C03": ("exhaustive enumeration (thorough) / proptest sampling (quick) of the framing decision table against an RFC 9112 §6.3 reference model",
+         "Differential against a reference decision model over the full product method x status x Content-Length configuration x Transfer-Encoding x Content-Encoding x trailing bytes x segmentation x payload length (628 992 combinations, all run in the thorough tier); outcome (Ok/Err and body bytes) compared exactly, ambiguous corners accepted both ways and counted.",
+         "Trusts the reference model written from RFC 9112 and the scripted transport; the finite domains are a chosen abstraction of 'all headers'.",
+         "DESIGN.md §4 C03"),
+ "C04": ("property-based testing (proptest): generated response heads vs. exact expected status / per-name value lists, metamorphic over segmentations",
+         "Generated-input exploration of response heads up to the max_headers and 16 KiB line limits; exact oracle computed from the generated fields (trim of 0x20, bare LF to SP, wire order per name, hidden Transfer-Encoding), and the same head under up to three segmentations must report identically.",
+         "Trusts the scripted transport; header order between different names, HTAB-padded values and non-token names are outside the asserted domain.",
+         "DESIGN.md §4 C04"),
+ "C05": ("exhaustive small-alphabet enumeration + proptest mutation of valid responses + endless-stream constructs; oracle = no panic, clock-free termination counters, counting-allocator heap bound",
+         "Robustness exploration: every string over a 9-symbol alphabet up to length 5 (quick) / 7 (thorough) in five contexts, generated mutants of six kinds of valid response, thirteen endless or size-declaring constructs; each drives send() (redirects, CONNECT) and a generated API mix. Panics are caught, hangs are decided by transport counters not by time, heap growth is measured by a counting global allocator; allocations >= 64 GiB are intercepted and reported.",
+         "Heap bound is 256 KiB + 16x (64x for json) the bytes really served/delivered, so a declared-size allocation below ~256 KiB is not seen; OpenSSL-internal allocations are not measured; a libFuzzer campaign (thorough) complements the generators.",
+         "DESIGN.md §4 C05"),
+ "C19": ("property-based testing (proptest) with a scripted server pause; oracle = no transport read reaches the pause while entitled bytes are undelivered",
+         "Generated responses whose transport script ends in a pause at a generated point; send() and the reads needed to obtain the already-entitled bytes must not reach the pause and must each return >= 1 byte; the end of a completely received frame must be reported without waiting.",
+         "Blocking is modelled by the scripted transport's Pause event (answered with TimedOut and recorded); real socket timing is not involved.",
+         "DESIGN.md §4 C19"),
 }
 hooks_commits = subprocess.run(["git","-C","/repo","log","--format=%h %s"],capture_output=True,text=True).stdout.splitlines()
 hook_commits = [l.split()[0] for l in hooks_commits if l.split(' ',1)[1].startswith('verif-hooks')]
